@@ -251,7 +251,7 @@ fn variant(kind: Kind, rng: &mut Rng) -> Params {
     match kind {
         Kind::Macd | Kind::Ppo => p.p = [per(rng), per(rng), per(rng).min(60)],
         Kind::Slow => p.p[1] = per(rng).min(60),
-        Kind::Bb | Kind::Kc | Kind::Ce => p.k = *rng.pick(&[0.0, 0.5, 2.0, 3.0, -1.0]),
+        Kind::Bb | Kind::Kc | Kind::Ce => p.k = *rng.pick(&[0.0, 0.5, 2.0, 3.0, -1.0, 2.1, 0.1, 1.618]),
         _ => {}
     }
     p
